@@ -136,24 +136,31 @@ def main():
             tids = sorted(os.listdir("/proc/%d/task" % pid))
             ent["tasks"] = [[t, read("/proc/%d/task/%s/stat" % (pid, t)).hex()] for t in tids]
             # ---- the real /proc through the psutil under test
-            pr = psutil.Process(pid)
+            # every call into psutil -- the constructor included -- is an OUTCOME to be judged, never a harness failure
             live = {}
 
             def q(key, fn):
                 try:
-                    live[key] = {"ok": fn()}
-                except Exception as e:  # noqa
+                    live[key] = {"ok": fn(psutil.Process(pid))}
+                except BaseException as e:  # noqa
+                    if isinstance(e, (KeyboardInterrupt, SystemExit)):
+                        raise
                     live[key] = {"exc": type(e).__name__}
-            q("name", lambda: os.fsencode(pr.name()).hex())
-            q("ppid", pr.ppid)
-            q("status", pr.status)
-            q("terminal", pr.terminal)
-            q("num_threads", pr.num_threads)
-            q("uids", lambda: list(pr.uids()))
-            q("gids", lambda: list(pr.gids()))
-            q("create_time", lambda: list(float(pr.create_time()).as_integer_ratio()))
-            q("thread_ids", lambda: sorted(t.id for t in pr.threads()))
-            q("ppid_map", lambda: _pslinux.ppid_map().get(pid))
+            q("name", lambda pr: os.fsencode(pr.name()).hex())
+            q("ppid", lambda pr: pr.ppid())
+            q("status", lambda pr: pr.status())
+            q("terminal", lambda pr: pr.terminal())
+            q("num_threads", lambda pr: pr.num_threads())
+            q("uids", lambda pr: list(pr.uids()))
+            q("gids", lambda pr: list(pr.gids()))
+            q("create_time", lambda pr: list(float(pr.create_time()).as_integer_ratio()))
+            q("thread_ids", lambda pr: sorted(t.id for t in pr.threads()))
+            try:
+                live["ppid_map"] = {"ok": _pslinux.ppid_map().get(pid)}
+            except BaseException as e:  # noqa
+                if isinstance(e, (KeyboardInterrupt, SystemExit)):
+                    raise
+                live["ppid_map"] = {"exc": type(e).__name__}
             ent["live"] = live
             out.append(ent)
         doc = {"clk": _pslinux.CLOCK_TICKS, "btime": btime, "uid": os.getuid(), "gid": os.getgid(),
